@@ -10,3 +10,6 @@ import SpoxModel.Props.C18
 #print axioms C18.dropped_iff
 #print axioms C18.relabel_build
 #print axioms C18.custom_composes
+#print axioms C18.adapt_ignores_foreign
+#print axioms C18.adapt_converts_older
+#print axioms C18.convert_keeps_foreign
